@@ -1,6 +1,7 @@
 package c12
 
 import (
+	"bytes"
 	"context"
 	"fmt"
 	"os"
@@ -389,7 +390,29 @@ func postRun(res *vf.Result, mf MainFinal, scratch string, cp caps, resets []res
 			res.Logf("%s: snapshot 1-%d differs bytewise from image_%d (%v) but is the same committed state k=%d", tag, a.Max, a.Max, perr, ks)
 		default:
 			snapBad[a.Max] = true
-			res.Violate("snapshot-content-mismatch"+sfx, "%s: level-9 file 1..%d != image_%d re-composed from the archived level-0 files (%v); L0-only image is consistent at ledger k=%d, the snapshot alone: k=%d %s%s", tag, a.Max, a.Max, perr, kref, ks, orOK(sWhy), note)
+			// attribution: where do the differing page images come from?
+			var attr []string
+			for pg, d := range lf.Pages {
+				if w, ok := want[pg]; ok && bytes.Equal(w, d) {
+					continue
+				}
+				src := "no archived level-0 file"
+				for n := 1; n <= ar.Max(); n++ {
+					if f := ar.Files[n]; f != nil {
+						if v, ok := f.Pages[pg]; ok && bytes.Equal(v, d) {
+							src = fmt.Sprintf("L0/%d", n)
+						}
+					}
+				}
+				attr = append(attr, fmt.Sprintf("page %d = version of %s", pg, src))
+				if len(attr) >= 6 {
+					break
+				}
+			}
+			sort.Strings(attr)
+			note2 := " {" + strings.Join(attr, "; ") + "}"
+			res.Logf("%s: snapshot 1-%d attribution:%s", tag, a.Max, note2)
+			res.Violate("snapshot-content-mismatch"+sfx, "%s: level-9 file 1..%d != image_%d re-composed from the archived level-0 files (%v); L0-only image is consistent at ledger k=%d, the snapshot alone: k=%d %s%s%s", tag, a.Max, a.Max, perr, kref, ks, orOK(sWhy), note2, note)
 		}
 	}
 
